@@ -22,7 +22,9 @@ rule("C03.b", "per row letter the constraint uses the documented relation (U <=,
 rule("C01.c", "nodal rows (letter N) are translated as equalities by every interface", floor=2)
 rule("C03.c", "variable bounds reach the solver in the right direction; objective sign and optimisation direction agree", floor=4)
 rule("C03.d", "boolean variables are selected from mapping['bool'] by variable label (de-duplicated by index) and cleared only "
-              "by make_soft_problem", floor=2)
+              "by make_soft_problem", floor=2, props=["C03", "C08", "C20"])
+rule("C03.i", "optimize() does not turn a solver *error* into the report 'not successful': no try / except around the solve call lets "
+              "execution continue to the status evaluation (an exception is no statement about feasibility)", floor=1)
 rule("C03.e", "a Results object is constructed only under solver status 'optimal'; every other status yields a string", floor=2)
 
 ALPHABET = set(ROW_LETTERS)
@@ -239,7 +241,7 @@ def _stmts_in(body):
     return list(au.walk_stmts(body))
 
 
-@analysis("translation", ["C03.a", "C03.b", "C01.c", "C03.c", "C03.d", "C03.e"])
+@analysis("translation", ["C03.a", "C03.b", "C01.c", "C03.c", "C03.d", "C03.e", "C03.i"])
 def run(ctx):
     p = ctx.p
     opt = p.cls("OptimProblem").methods.get("optimize")
@@ -510,6 +512,25 @@ def run(ctx):
                         ctx.ob("C03.e", opt, "%s: Results(...) under %s" % (iname, why), verdict,
                                "a Results object (= success) is built on a path whose status guard is %s; success may only be "
                                "reported for status optimal" % why, node=n)
+
+    # ================================================================= C03.i swallowed solver errors
+    optf = p.fn_opt("OptimProblem.optimize")
+    if optf is not None:
+        solves = [c for c in au.walk_local(optf.node, include_self=False) if isinstance(c, ast.Call) and au.method_name(c) in ("solve", "Solve")]
+        swallowed = []
+        for c in solves:
+            for a in p.ancestors(c):
+                if isinstance(a, ast.Try) and any(c is x for b0 in a.body for x in ast.walk(b0)):
+                    for h in a.handlers:
+                        if not any(isinstance(x, ast.Raise) for x in au.walk_stmts(h.body)) and not any(isinstance(x, ast.Return) for x in au.walk_stmts(h.body)):
+                            swallowed.append((c, h))
+                if a is optf.node:
+                    break
+        ctx.ob("C03.i", optf, "solver errors are not swallowed", not swallowed,
+               "the call %s sits in a try whose handler neither re-raises nor returns: after a solver error (e.g. a MIP handed to an LP-only "
+               "solver) the status is None / not optimal and optimize() answers 'not successful' - a claim that the problem has no feasible "
+               "point, although nothing was solved" % (au.short(swallowed[0][0], 50) if swallowed else ""), node=(swallowed[0][1] if swallowed else optf.node),
+               ok_detail="%d solve call(s), none inside a swallowing try" % len(solves))
 
 
 def _is_status(e, ff, at) -> bool:
